@@ -436,491 +436,5 @@ theorem firstRule_eq (kp) (mb mi ml : Nat → Nat → Bool) (pre : List TG) (cur
     | none => simpa using ih
     | some m => rfl
 
-/-! ## chained context format 3
-
-`chain3Input` tests the glyph at `p` first and then skips with `needed` = number of sets still
-to match INCLUDING the next one, so the skip loop stops one position earlier than that of
-`matchFwd`; when exactly as many glyphs remain before the limit as sets remain to be matched,
-they are tested one after the other WITHOUT the `keep` filter.  The engine therefore agrees with
-the reference only if the sets after the first accept no glyph the lookup ignores (`hK` below);
-see the counterexamples at the end of the file. -/
-
-/-- `chain3Input` after the test of the glyph at `p`: skip, then the remaining sets -/
-def tailC (kp : Nat → Bool) (seq : List Glyph) (cs : List GSet) (rest : List Glyph) (s : Nat)
-    (limit : Int) : Outcome (Option (List Nat × Nat)) := do
-  let q ← skipFwd kp rest s limit cs.length
-  chain3Input kp seq cs q limit
-
-theorem chain3Input_cons (kp) (seq : List Glyph) (c : GSet) (cs : List GSet) (p : Nat) (limit : Int) :
-    chain3Input kp seq (c :: cs) p limit =
-      (if (p : Int) + cs.length ≥ limit then .ok none else do
-      let g ← idx "chain3:seq[p]" seq p
-      if !setVal c g.gid then .ok none else
-      match ← tailC kp seq cs (seq.drop (p + 1)) (p + 1) limit with
-      | some (ps, last) => .ok (some (p :: ps, last))
-      | none => .ok none) := by
-  rw [chain3Input]
-  split
-  · rfl
-  · cases idx "chain3:seq[p]" seq p with
-    | ok g =>
-      simp only [bind_ok_eq]
-      split
-      · rfl
-      · simp only [tailC]
-        cases skipFwd kp (seq.drop (p + 1)) (p + 1) limit cs.length <;> rfl
-    | err e => rfl
-    | panic e => rfl
-
-/-- the window of a match inside `W`: up to the last matched glyph, plus the unkept glyphs behind it -/
-def winLen (kp : Nat → Bool) (offs : List Nat) (W : List TG) : Nat :=
-  usedLen offs + ((W.drop (usedLen offs)).takeWhile fun t => !kp t.g.gid).length
-
-theorem matchSeq_length (kp) (prs : List (Nat → Bool)) (ts : List TG) (i : Nat) (offs : List Nat)
-    (h : matchSeq kp prs ts i = some offs) : offs.length = prs.length := by
-  induction ts generalizing prs i offs with
-  | nil =>
-    cases prs with
-    | nil => simp only [matchSeq] at h; cases h; rfl
-    | cons p ps => simp [matchSeq] at h
-  | cons t ts ih =>
-    cases prs with
-    | nil => simp only [matchSeq] at h; cases h; rfl
-    | cons p ps =>
-      simp only [matchSeq] at h
-      split at h
-      · split at h
-        · cases hm : matchSeq kp ps ts (i + 1) with
-          | none => rw [hm] at h; cases h
-          | some offs' =>
-            rw [hm] at h
-            cases h
-            simp only [List.length_cons, ih ps (i + 1) offs' hm]
-        · cases h
-      · exact ih (p :: ps) (i + 1) offs h
-
-theorem usedLen_zero_cons (l : List Nat) : usedLen (0 :: l.map (· + 1)) = usedLen l + 1 := by
-  unfold usedLen
-  rw [List.getLast?_cons, List.getLast?_map]
-  cases l.getLast? <;> rfl
-
-theorem usedLen_shift (l : List Nat) (h : l ≠ []) : usedLen (l.map (· + 1)) = usedLen l + 1 := by
-  unfold usedLen
-  rw [List.getLast?_map]
-  cases hl : l.getLast? with
-  | none => exact absurd (List.getLast?_eq_none_iff.mp hl) h
-  | some o => rfl
-
-theorem tailC_eq (kp) (cs : List GSet) (hK : ∀ c ∈ cs, ∀ g, setVal c g = true → kp g = true) :
-    ∀ (R : List TG) (L : List Glyph) (s lim : Nat), L.length = s → lim ≤ R.length →
-      tailC kp (L ++ gl R) cs (gl R) s ((s + lim : Nat) : Int)
-        = .ok ((matchSeq kp (cs.map setVal) (R.take lim) 0).map fun offs =>
-            (offs.map (· + s), s + winLen kp offs (R.take lim))) := by
-  induction cs with
-  | nil =>
-    intro R L s lim hL hlim
-    simp only [tailC, List.length_nil, skipFwd_gl kp R s lim 0 hlim, bind_ok_eq, chain3Input,
-      List.map_nil, matchSeq, Option.map_some, winLen, usedLen, List.getLast?_nil, List.drop_zero,
-      takeWhile_take_length, Nat.sub_zero, Nat.zero_add]
-  | cons c cs ihc =>
-    have hKc := hK c (List.mem_cons_self)
-    have hKs : ∀ c' ∈ cs, ∀ g, setVal c' g = true → kp g = true :=
-      fun c' hc' => hK c' (List.mem_cons_of_mem _ hc')
-    have ihc := ihc hKs
-    intro R
-    induction R with
-    | nil =>
-      intro L s lim hL hlim
-      simp only [List.length_nil] at hlim
-      have : lim = 0 := by omega
-      subst this
-      simp only [tailC, gl_nil, skipFwd]
-      rw [if_neg (by omega)]
-      simp only [bind_ok_eq, chain3Input_cons]
-      rw [if_pos (by omega)]
-      rfl
-    | cons t R ihR =>
-      intro L s lim hL hlim
-      simp only [List.length_cons] at hlim
-      by_cases hshort : lim ≤ cs.length
-      · -- not even room for the sets after this one
-        simp only [tailC, gl_cons, skipFwd, List.length_cons]
-        rw [if_neg (by omega)]
-        simp only [bind_ok_eq, chain3Input_cons]
-        rw [if_pos (by omega)]
-        rw [matchSeq_short]
-        · rfl
-        · simp only [List.length_take, List.length_cons, List.length_map]
-          omega
-      · obtain ⟨lim', rfl⟩ : ∃ lim', lim = lim' + 1 := ⟨lim - 1, by omega⟩
-        have e1 : L ++ t.g :: gl R = (L ++ [t.g]) ++ gl R := by simp
-        have e2 : s + (lim' + 1) = s + 1 + lim' := by omega
-        have hidx : idx "chain3:seq[p]" (L ++ t.g :: gl R) s = .ok t.g := by
-          simp [idx, hL]
-        have hdrop : (L ++ t.g :: gl R).drop (s + 1) = gl R := by
-          rw [e1, ← hL]
-          have : L.length + 1 = (L ++ [t.g]).length := by simp
-          rw [this, List.drop_left]
-        -- what happens once the loop has stopped at `s`
-        have stop : chain3Input kp (L ++ t.g :: gl R) (c :: cs) s ((s + (lim' + 1) : Nat) : Int)
-            = if setVal c t.g.gid then
-                .ok ((matchSeq kp (cs.map setVal) (R.take lim') 0).map fun offs =>
-                  (s :: offs.map (· + (s + 1)), s + 1 + winLen kp offs (R.take lim')))
-              else .ok none := by
-          rw [chain3Input_cons, if_neg (by omega), hidx]
-          simp only [bind_ok_eq]
-          cases hv : setVal c t.g.gid with
-          | false => rfl
-          | true =>
-            simp only [Bool.not_true, Bool.false_eq_true, if_false, if_true, hdrop]
-            rw [e1, e2, ihc R (L ++ [t.g]) (s + 1) lim' (by simp [hL]) (by omega)]
-            cases matchSeq kp (cs.map setVal) (R.take lim') 0 <;> rfl
-        by_cases hk : kp t.g.gid = true
-        · -- the loop stops at the kept glyph (or has no room to run): it is tested
-          have hskip : skipFwd kp (t.g :: gl R) s ((s + (lim' + 1) : Nat) : Int) (cs.length + 1) = .ok s := by
-            simp only [skipFwd, hk, if_true]
-            split <;> rfl
-          simp only [tailC, gl_cons, List.length_cons, hskip, bind_ok_eq, stop]
-          simp only [List.map_cons, List.take_succ_cons, matchSeq, hk, if_true]
-          cases hv : setVal c t.g.gid with
-          | false => simp
-          | true =>
-            simp only [if_true]
-            have hsh := matchSeq_shift kp (cs.map setVal) (R.take lim') 0 1
-            rw [Nat.zero_add] at hsh
-            rw [hsh]
-            cases matchSeq kp (cs.map setVal) (R.take lim') 0 with
-            | none => rfl
-            | some offs =>
-              simp only [Option.map_some, winLen, usedLen_zero_cons, List.drop_succ_cons,
-                List.map_cons, List.map_map]
-              congr 3
-              · congr 1
-                · omega
-                · apply List.map_congr_left
-                  intro a _
-                  simp only [Function.comp]
-                  omega
-              · omega
-        · have hk' : kp t.g.gid = false := by simpa using hk
-          by_cases hroom : cs.length + 1 < lim' + 1
-          · -- the unkept glyph is passed over
-            have h := ihR (L ++ [t.g]) (s + 1) lim' (by simp [hL]) (by omega)
-            simp only [tailC, List.length_cons] at h
-            simp only [tailC, gl_cons, List.length_cons, skipFwd]
-            rw [if_pos (by omega)]
-            simp only [hk', Bool.false_eq_true, if_false]
-            rw [e1, e2, h]
-            simp only [List.map_cons, List.take_succ_cons, matchSeq, hk', Bool.false_eq_true, if_false]
-            have hsh := matchSeq_shift kp (setVal c :: cs.map setVal) (R.take lim') 0 1
-            rw [Nat.zero_add] at hsh
-            rw [hsh]
-            cases hm : matchSeq kp (setVal c :: cs.map setVal) (R.take lim') 0 with
-            | none => rfl
-            | some offs =>
-              have hne : offs ≠ [] := by
-                intro h0
-                have := matchSeq_length kp _ _ _ _ hm
-                rw [h0] at this
-                simp at this
-              simp only [Option.map_some, winLen, usedLen_shift offs hne, List.drop_succ_cons,
-                List.map_map]
-              congr 3
-              · apply List.map_congr_left
-                intro a _
-                simp only [Function.comp]
-                omega
-              · omega
-          · -- exactly as many glyphs as sets remain: the unkept glyph is tested
-            have hskip : skipFwd kp (t.g :: gl R) s ((s + (lim' + 1) : Nat) : Int) (cs.length + 1) = .ok s := by
-              simp only [skipFwd]
-              rw [if_neg (by omega)]
-            have hv : setVal c t.g.gid = false := by
-              cases hv : setVal c t.g.gid with
-              | false => rfl
-              | true => rw [hKc _ hv] at hk'; cases hk'
-            simp only [tailC, gl_cons, List.length_cons, hskip, bind_ok_eq, stop, hv]
-            simp only [List.map_cons, List.take_succ_cons, matchSeq, hk', Bool.false_eq_true, if_false]
-            rw [matchSeq_short]
-            · rfl
-            · simp only [List.length_take, List.length_cons, List.length_map]
-              omega
-
-/-- the input sets of format 3 at the current position (any limit) -/
-theorem chain3Input_eq (kp) (c0 : GSet) (cs : List GSet)
-    (hK : ∀ c ∈ cs, ∀ g, setVal c g = true → kp g = true)
-    (pre : List TG) (cur : TG) (post : List TG) (lim : Nat) (hlim : lim ≤ post.length) :
-    chain3Input kp (gl (pre.reverse ++ cur :: post)) (c0 :: cs) pre.length
-        ((pre.length + 1 + lim : Nat) : Int)
-      = .ok (if setVal c0 cur.g.gid then
-          (matchSeq kp (cs.map setVal) (post.take lim) 0).map fun offs =>
-            (pre.length :: offs.map (· + (pre.length + 1)), pre.length + 1 + winLen kp offs (post.take lim))
-        else none) := by
-  rw [chain3Input_cons]
-  by_cases hshort : lim < cs.length
-  · rw [if_pos (by omega), matchSeq_short]
-    · simp
-    · simp only [List.length_take, List.length_map]; omega
-  · rw [if_neg (by omega), seq_idx]
-    simp only [bind_ok_eq]
-    cases hv : setVal c0 cur.g.gid with
-    | false => rfl
-    | true =>
-      have hd := seq_drop pre cur post 0
-      rw [Nat.add_zero, List.drop_zero] at hd
-      simp only [Bool.not_true, Bool.false_eq_true, if_false, if_true, hd]
-      rw [seq_split, tailC_eq kp cs hK post _ (pre.length + 1) lim (by simp) hlim]
-      cases matchSeq kp (cs.map setVal) (post.take lim) 0 <;> rfl
-
-/-- the lookahead sets of format 3, tested from a position that is the end of the sequence or
-holds a kept glyph, up to the end of the sequence -/
-theorem chain3Look_eq (kp) (look : List GSet)
-    (hK : ∀ c ∈ look.tail, ∀ g, setVal c g = true → kp g = true)
-    (L : List Glyph) (R : List TG) (p : Nat) (hL : L.length = p)
-    (hR : ∀ t r, R = t :: r → kp t.g.gid = true) :
-    ∃ f, chain3Input kp (L ++ gl R) look p ((L ++ gl R).length : Int)
-      = .ok ((matchSeq kp (look.map setVal) R 0).map f) := by
-  cases look with
-  | nil => exact ⟨fun _ => ([], p), by simp [chain3Input, matchSeq]⟩
-  | cons l0 ls =>
-    simp only [List.tail_cons] at hK
-    cases R with
-    | nil =>
-      refine ⟨fun _ => ([], p), ?_⟩
-      rw [chain3Input_cons, if_pos (by simp [hL]; omega)]
-      rfl
-    | cons t R =>
-      have hk := hR t R rfl
-      rw [chain3Input_cons]
-      simp only [List.map_cons, matchSeq, hk, if_true]
-      by_cases hshort : R.length < ls.length
-      · refine ⟨fun _ => ([], p), ?_⟩
-        rw [if_pos (by simp [hL]; omega), matchSeq_short]
-        · simp
-        · simp only [List.length_map]; omega
-      · have hlen : (L ++ gl (t :: R)).length = p + 1 + R.length := by simp [hL]; omega
-        rw [if_neg (by rw [hlen]; omega)]
-        have hidx : idx "chain3:seq[p]" (L ++ gl (t :: R)) p = .ok t.g := by
-          simp [idx, hL]
-        rw [hidx]
-        simp only [bind_ok_eq]
-        cases hv : setVal l0 t.g.gid with
-        | false => exact ⟨fun _ => ([], p), rfl⟩
-        | true =>
-          have e1 : L ++ gl (t :: R) = (L ++ [t.g]) ++ gl R := by simp
-          have hdrop : (L ++ gl (t :: R)).drop (p + 1) = gl R := by
-            rw [e1, ← hL]
-            have : L.length + 1 = (L ++ [t.g]).length := by simp
-            rw [this, List.drop_left]
-          simp only [Bool.not_true, Bool.false_eq_true, if_false, if_true, hdrop]
-          rw [hlen, e1, tailC_eq kp ls hK R _ (p + 1) R.length (by simp [hL]) (Nat.le_refl _),
-            List.take_length]
-          have hsh := matchSeq_shift kp (ls.map setVal) R 0 1
-          rw [Nat.zero_add] at hsh
-          rw [hsh]
-          cases matchSeq kp (ls.map setVal) R 0 with
-          | none => exact ⟨fun _ => ([], p), rfl⟩
-          | some offs => exact ⟨fun x => (p :: (offs.map (· + (p + 1))), p + 1 + winLen kp offs R), rfl⟩
-
-theorem drop_takeWhile_length {α : Type} (q : α → Bool) (l : List α) :
-    l.drop (l.takeWhile q).length = l.dropWhile q := by
-  induction l with
-  | nil => rfl
-  | cons x l ih =>
-    simp only [List.takeWhile_cons, List.dropWhile_cons]
-    split
-    · simpa using ih
-    · rfl
-
-theorem takeWhile_length_le {α : Type} (q : α → Bool) (l : List α) :
-    (l.takeWhile q).length ≤ l.length := by
-  induction l with
-  | nil => simp
-  | cons x l ih =>
-    simp only [List.takeWhile_cons]
-    split
-    · simp only [List.length_cons]; omega
-    · simp
-
-theorem dropWhile_head {α : Type} (q : α → Bool) (l : List α) (t : α) (r : List α)
-    (h : l.dropWhile q = t :: r) : q t = false := by
-  induction l with
-  | nil => cases h
-  | cons x l ih =>
-    simp only [List.dropWhile_cons] at h
-    split at h
-    · exact ih h
-    · rename_i hx
-      cases h
-      simpa using hx
-
-/-- leading unkept glyphs do not matter for a match -/
-theorem matchSeq_dropWhile_isSome (kp) (prs : List (Nat → Bool)) (l : List TG) :
-    (matchSeq kp prs (l.dropWhile fun t => !kp t.g.gid) 0).isSome = (matchSeq kp prs l 0).isSome := by
-  cases prs with
-  | nil => simp [matchSeq]
-  | cons p ps =>
-    induction l with
-    | nil => rfl
-    | cons t l ih =>
-      simp only [List.dropWhile_cons]
-      by_cases hk : kp t.g.gid = true
-      · simp [hk]
-      · have hk' : kp t.g.gid = false := by simpa using hk
-        simp only [hk', Bool.not_false, if_true, ih]
-        conv => rhs; simp only [matchSeq, hk', Bool.false_eq_true, if_false]
-        have hsh := matchSeq_shift kp (p :: ps) l 0 1
-        rw [Nat.zero_add] at hsh
-        rw [hsh, Option.isSome_map]
-
-/-- Chained context format 3 at top level (the whole rest of the sequence is available): the
-engine agrees with the reference PROVIDED the input and lookahead sets after the first accept
-only glyphs the lookup keeps. -/
-theorem chain3_top (kp gd) (pre : List TG) (cur : TG) (post : List TG) (stack : List Nested)
-    (back input look : List GSet) (actions : List Action)
-    (hi : ∀ c ∈ input.tail, ∀ g, setVal c g = true → kp g = true)
-    (hl : ∀ c ∈ look.tail, ∀ g, setVal c g = true → kp g = true) :
-    match matchSub kp gd pre cur post post.length (.chain3 back input look actions) with
-    | .error _ => True
-    | .ok none =>
-      applySub kp ⟨gl (pre.reverse ++ cur :: post), stack⟩ pre.length
-        (gl (pre.reverse ++ cur :: post)).length (.chain3 back input look actions) = .ok none
-    | .ok (some (.ctx m acts)) =>
-      applySub kp ⟨gl (pre.reverse ++ cur :: post), stack⟩ pre.length
-        (gl (pre.reverse ++ cur :: post)).length (.chain3 back input look actions)
-        = .ok (some (pushMatch ⟨gl (pre.reverse ++ cur :: post), stack⟩
-            (pre.length :: m.offs.map (· + (pre.length + 1))) acts (pre.length + 1 + m.wlen),
-            pre.length + 1 + m.wlen))
-    | .ok (some (.done _ _)) => False := by
-  cases input with
-  | nil => simp only [matchSub, undef]
-  | cons c0 cs =>
-    simp only [List.tail_cons] at hi
-    have hin := chain3Input_eq kp c0 cs hi pre cur post post.length (Nat.le_refl _)
-    rw [List.take_length] at hin
-    simp only [matchSub, applySub, seq_take_rev, matchBack_eq kp _ pre 0, seq_length, hin, R_pure]
-    cases hv : setVal c0 cur.g.gid with
-    | false =>
-      simp only [Bool.not_false, if_true, Bool.false_eq_true, if_false, bind_ok_eq]
-      split <;> rfl
-    | true =>
-      simp only [Bool.not_true, Bool.false_eq_true, if_false, if_true, matchContext, List.take_length]
-      cases hb : matchSeq kp (back.map setVal) pre 0 with
-      | none => simp
-      | some bo =>
-        simp only [Option.isSome_some, Bool.not_true, Bool.false_eq_true, if_false, bind_ok_eq]
-        cases hm : matchSeq kp (cs.map setVal) post 0 with
-        | none => simp
-        | some offs =>
-          simp only [Option.map_some]
-          have hu := usedLen_le kp _ post offs hm
-          -- the lookahead starts at the end of the window
-          have hw : post.drop (winLen kp offs post)
-              = (post.drop (usedLen offs)).dropWhile fun t => !kp t.g.gid := by
-            rw [← drop_takeWhile_length, List.drop_drop]; rfl
-          have hwle : winLen kp offs post ≤ post.length := by
-            have := takeWhile_length_le (fun t : TG => !kp t.g.gid) (post.drop (usedLen offs))
-            rw [List.length_drop] at this
-            unfold winLen; omega
-          have hs : gl (pre.reverse ++ cur :: post)
-              = ((gl pre).reverse ++ [cur.g] ++ gl (post.take (winLen kp offs post)))
-                ++ gl (post.drop (winLen kp offs post)) := by
-            rw [← seq_take, ← seq_drop, List.take_append_drop]
-          obtain ⟨f, hf⟩ := chain3Look_eq kp look hl
-            ((gl pre).reverse ++ [cur.g] ++ gl (post.take (winLen kp offs post)))
-            (post.drop (winLen kp offs post)) (pre.length + 1 + winLen kp offs post)
-            (by simp [List.length_take]; omega)
-            (by
-              intro t r htr
-              rw [hw] at htr
-              simpa using dropWhile_head _ _ t r htr)
-          rw [← hs, seq_length] at hf
-          have hsome := matchSeq_dropWhile_isSome kp (look.map setVal) (post.drop (usedLen offs))
-          rw [← hw] at hsome
-          simp only [bind_ok_eq, hf]
-          cases hl1 : matchSeq kp (look.map setVal) (post.drop (winLen kp offs post)) 0 with
-          | none =>
-            rw [hl1] at hsome
-            cases hl2 : matchSeq kp (look.map setVal) (post.drop (usedLen offs)) 0 with
-            | none => rfl
-            | some _ => rw [hl2] at hsome; cases hsome
-          | some lo =>
-            rw [hl1] at hsome
-            cases hl2 : matchSeq kp (look.map setVal) (post.drop (usedLen offs)) 0 with
-            | none => rw [hl2] at hsome; cases hsome
-            | some _ => rfl
-
-/-- Chained context format 3 without lookahead, at any limit (nested application included), under
-the same proviso on the input sets. -/
-theorem chain3_nolook (kp gd) (pre : List TG) (cur : TG) (post : List TG) (stack : List Nested)
-    (back input : List GSet) (actions : List Action) (lim : Nat) (hlim : lim ≤ post.length)
-    (hi : ∀ c ∈ input.tail, ∀ g, setVal c g = true → kp g = true) :
-    match matchSub kp gd pre cur post lim (.chain3 back input [] actions) with
-    | .error _ => True
-    | .ok none =>
-      applySub kp ⟨gl (pre.reverse ++ cur :: post), stack⟩ pre.length
-        ((pre.length + 1 + lim : Nat) : Int) (.chain3 back input [] actions) = .ok none
-    | .ok (some (.ctx m acts)) =>
-      applySub kp ⟨gl (pre.reverse ++ cur :: post), stack⟩ pre.length
-        ((pre.length + 1 + lim : Nat) : Int) (.chain3 back input [] actions)
-        = .ok (some (pushMatch ⟨gl (pre.reverse ++ cur :: post), stack⟩
-            (pre.length :: m.offs.map (· + (pre.length + 1))) acts (pre.length + 1 + m.wlen),
-            pre.length + 1 + m.wlen))
-    | .ok (some (.done _ _)) => False := by
-  cases input with
-  | nil => simp only [matchSub, undef]
-  | cons c0 cs =>
-    simp only [List.tail_cons] at hi
-    have hin := chain3Input_eq kp c0 cs hi pre cur post lim hlim
-    simp only [matchSub, applySub, seq_take_rev, matchBack_eq kp _ pre 0, hin, R_pure]
-    cases hv : setVal c0 cur.g.gid with
-    | false =>
-      simp only [Bool.not_false, if_true, Bool.false_eq_true, if_false, bind_ok_eq]
-      split <;> rfl
-    | true =>
-      simp only [Bool.not_true, Bool.false_eq_true, if_false, if_true, matchContext]
-      cases hb : matchSeq kp (back.map setVal) pre 0 with
-      | none => simp
-      | some bo =>
-        simp only [Option.isSome_some, Bool.not_true, Bool.false_eq_true, if_false, bind_ok_eq]
-        cases hm : matchSeq kp (cs.map setVal) (post.take lim) 0 with
-        | none => simp
-        | some offs =>
-          simp only [List.map_nil, matchSeq, Option.map_some, chain3Input, bind_ok_eq, winLen]
-
-/-! ## counterexamples for format 3 (glyph 9 is ignored by the lookup, glyphs 1 and 2 are kept)
-
-Without the proviso the engine and the reference differ even at top level: when exactly as many
-glyphs remain as sets are still to be matched, `ChainedSeqContext3.apply` tests them without
-consulting the lookup flags. -/
-
-/-- input `[{1},{9}]` on the glyphs `1 9`: the engine matches (input positions 0 and 1), the
-reference does not (9 is ignored, no second input glyph is left) -/
-example :
-    applySub (fun g => g != 9) ⟨[⟨1, [], 0, 0, 0⟩, ⟨9, [], 0, 0, 0⟩], []⟩ 0 2
-        (.chain3 [] [[(1, true)], [(9, true)]] [] [])
-      = .ok (some (⟨[⟨1, [], 0, 0, 0⟩, ⟨9, [], 0, 0, 0⟩], [⟨[0, 1], [], 2⟩]⟩, 2))
-    ∧ matchContext (fun g => g != 9) [] [setVal [(9, true)]] [] [] [{ g := ⟨9, [], 0, 0, 0⟩ }] 1 = none := by
-  decide
-
-/-- lookahead `[{2},{9}]` on the glyphs `1 2 9`: the engine matches, the reference does not -/
-example :
-    applySub (fun g => g != 9) ⟨[⟨1, [], 0, 0, 0⟩, ⟨2, [], 0, 0, 0⟩, ⟨9, [], 0, 0, 0⟩], []⟩ 0 3
-        (.chain3 [] [[(1, true)]] [[(2, true)], [(9, true)]] [])
-      = .ok (some (⟨[⟨1, [], 0, 0, 0⟩, ⟨2, [], 0, 0, 0⟩, ⟨9, [], 0, 0, 0⟩], [⟨[0], [], 1⟩]⟩, 1))
-    ∧ matchContext (fun g => g != 9) [] [] [setVal [(2, true)], setVal [(9, true)]] []
-        [{ g := ⟨2, [], 0, 0, 0⟩ }, { g := ⟨9, [], 0, 0, 0⟩ }] 2 = none := by
-  decide
-
-/-- nested application (window = the first glyph only) with lookahead `[{2}]` on the glyphs
-`1 9 2`: the engine tests the ignored glyph 9 at the window end against the lookahead and does
-not match, the reference skips it and matches — even though all sets accept kept glyphs only -/
-example :
-    applySub (fun g => g != 9) ⟨[⟨1, [], 0, 0, 0⟩, ⟨9, [], 0, 0, 0⟩, ⟨2, [], 0, 0, 0⟩], []⟩ 0 1
-        (.chain3 [] [[(1, true)]] [[(2, true)]] [])
-      = .ok none
-    ∧ matchContext (fun g => g != 9) [] [] [setVal [(2, true)]] []
-        [{ g := ⟨9, [], 0, 0, 0⟩ }, { g := ⟨2, [], 0, 0, 0⟩ }] 0 = some ⟨[], 0⟩ := by
-  decide
 
 end SfntV.Spec.Shape
